@@ -122,6 +122,7 @@ type xferDir struct {
 	gaps      []time.Duration
 	preopen   bool
 	rxOpened  bool // the receiving side's Stream object exists (set by the pre-open task)
+	cbWrites  bool // flow-controlled sender: after the first message the rest is written from the OnBufferedAmountLow callback
 	readDelay time.Duration
 	readPause int           // pause after this many reads (0 = never)
 	pauseFor  time.Duration // length of the pause
@@ -322,6 +323,58 @@ func (x *xfer) start() {
 			}
 			s.SetReliabilityParams(d.unordered, d.relType, d.relVal)
 			d.curUnordered = d.unordered
+			if d.cbWrites && d.flip == nil && len(d.sizes) > 1 {
+				// the first message is written here, every further one from the callback, i.e. on the read loop of the
+				// association, inside the window in which acknowledgement processing has let go of the association lock
+				thr := uint64(pick(w.wtape, 0, 0, 1200, 8000))
+				next := 1
+				writeOne := func(i int) {
+					m := w.newMsg(st, d.sizes[i], d.dcep != nil && d.dcep[i])
+					m.unordered, m.relType, m.relVal = d.curUnordered, d.relType, d.relVal
+					if m.dcep {
+						x.index[uint32(m.id)|0x80000000] = m
+					} else {
+						x.index[m.ppi] = m
+					}
+					d.msgs = append(d.msgs, m)
+					w.write(st, m)
+				}
+				// one writer at a time (callbacks may come from the read loop and from timer paths): a callback that
+				// arrives while a write is in progress only asks the writer in progress to look again
+				busy, again := false, false
+				pump := func() {
+					if busy {
+						again = true
+						return
+					}
+					busy = true
+					for {
+						again = false
+						for next < len(d.sizes) && !w.tornDown && !w.stopped() && s.BufferedAmount() <= thr {
+							i := next
+							next++
+							writeOne(i)
+						}
+						if !again {
+							break
+						}
+					}
+					busy = false
+					if next >= len(d.sizes) {
+						d.writerDone = true
+					}
+				}
+				s.SetBufferedAmountLowThreshold(thr)
+				s.OnBufferedAmountLow(func() {
+					w.probe("write-from-low-threshold-callback")
+					pump()
+				})
+				busy = true
+				writeOne(0)
+				busy = false
+				pump()
+				return
+			}
 			for i, n := range d.sizes {
 				if d.gaps != nil && d.gaps[i] > 0 {
 					h := vsimBlocking("client.sleep")
@@ -693,6 +746,9 @@ func genDirs(w *world, o xferOpts) []*xferDir {
 			d.oddWrites = o.oddWrites && tp.intn(2) == 0
 			d.shortReads = tp.intn(3) == 0
 			d.deadlines = o.deadlines && tp.intn(2) == 0
+			if o.cbWrites {
+				d.cbWrites = tp.intn(3) == 0 && !d.oddWrites && d.gaps == nil && !w.cfg.Side[from].BlockWrite
+			}
 			if !o.reliableOrderedOnly && tp.intn(3) == 0 && (w.params["kf_recv_unordered"] != 0 || (w.cfg.Side[0].Interleaving && w.cfg.Side[1].Interleaving)) {
 				// ordered and unordered messages share the stream (only with interleaving on both
 				// sides: in DATA mode this is the trigger region of known finding KF4)
@@ -757,6 +813,7 @@ type xferOpts struct {
 	deadlines           bool
 	oddWrites           bool
 	prFragments         bool // partially reliable streams only, messages of two to four fragments
+	cbWrites            bool // some senders write from the low-threshold callback (the usual WebRTC flow control)
 }
 
 // rtoMaxOf returns the configured RTO.max of an endpoint as a duration (the
